@@ -487,6 +487,9 @@ func c03AppHistory(t *testing.T, col *Collector, seed int64, hi int, verbose boo
 			kk = 10
 		}
 		emits = append(emits, c03Emit{kk, append(c.poolArgs(), c03Zs(c.Amt), c03Zs(c.RatioOut), zstr(wbf), c03Zs(c.Fee)), c03Res{0, po.R.V1, po.SlipAmt}, c2.cost(exactOut)})
+		// the same with the weight-breaking fee computed by the model from the pool state and the app's amm params
+		emits = append(emits, c03Emit{kk + 3, c.wbfArgs(c03BigS(c.RatioOut)), c03WbfRes(po), c2.cost(exactOut)})
+		c03WbfImplCheck(col, hidx, c, po)
 		// the bonus decision of UpdatePoolForSwap
 		base := new(big.Int).Quo(po.OracAmt, c03Pow18)
 		if exactOut {
